@@ -184,8 +184,21 @@ static void run_C17(const Args &a, long cs) {
 		for (size_t i = 0; i < tot; i++) { long j = (long)((i / inner) % nax); if (trailing ? j >= nax - kill : j < kill) s.coef[i] = 0.f; }
 		count("tables-with-zero-edge-hyperplanes");
 	}
-	bool any = false; for (float c : s.coef) if (c != 0) any = true; if (!any) s.coef[r.below(tot)] = 1.f;
+	if (r.coin(0.04)) { for (auto &c : s.coef) c = 0.f; count("tables-with-all-coefficients-zero"); } // the zero function: the correct result is an empty listing
 	s.flavor = "grid";
+	if (cs % 150 == 149) { // long grids: the product of the index ranges reaches 2^31 / 2^32 although the result (one non-zero coefficient) is tiny
+		Spec t; for (int d = 0; d < 4; d++) { t.order.push_back(0); t.knots.push_back({0, 1, 2, 3}); } t.coef.assign(81, 0.f); t.coef[1 * 27 + 1 * 9 + 1 * 3 + 1] = 2.5f; t.flavor = "long-grid";
+		Table TL; if (!load(TL, t)) { viol("C17:load:well-formed-table-rejected", t.full_json()); return; }
+		static const size_t NS[] = {1300, 1626, 1700, 1291}; size_t N = NS[r.below(4)]; std::vector<std::vector<double>> g(4, std::vector<double>(N, 2.5)); size_t ia = N / 3, ib = 2 * N / 3; for (int d = 0; d < 4; d++) { g[d][ia] = 1.5; g[d][ib] = 1.25; }
+		std::string gj2 = "{\"grid_lengths\":[" + std::to_string(N) + "," + std::to_string(N) + "," + std::to_string(N) + "," + std::to_string(N) + "],\"table\":" + t.brief() + "}";
+		count("long-grids"); phase_log("grideval (long grid)"); context(gj2); std::unique_ptr<photospline::ndsparse> nl; bool refused = false;
+		try { nl = TL.grideval(g); } catch (std::exception &e) { refused = true; }
+		if (refused) { count("long-grids-refused-by-exception"); return; } // a request the library cannot serve may be refused, never answered wrongly
+		bool okl = nl->rows == 16; for (int d = 0; d < 4 && okl; d++) if (nl->ranges[d] != N) okl = false;
+		for (size_t q = 0; okl && q < nl->rows; q++) { for (int d = 0; d < 4; d++) if (nl->i[d][q] != ia && nl->i[d][q] != ib) okl = false; if (nl->x[q] != 2.5) okl = false; }
+		if (!okl) viol("C17:grideval:long-grid-result-wrong", "{\"entries\":" + std::to_string(nl->rows) + ",\"ranges\":[" + std::to_string(nl->ranges[0]) + "," + std::to_string(nl->ranges[1]) + "," + std::to_string(nl->ranges[2]) + "," + std::to_string(nl->ranges[3]) + "],\"case\":" + gj2 + "}"); else count("long-grids-evaluated-correctly");
+		return;
+	}
 	Table T; if (!load(T, s)) { viol("C17:load:well-formed-table-rejected", s.full_json()); return; }
 	std::vector<std::vector<double>> grid(nd); size_t gtot = 1;
 	for (int d = 0; d < nd; d++) { const auto &k = s.knots[d]; int np = r.coin(0.15) ? 1 : 1 + (int)r.below(nd >= 3 ? 5 : 8);
